@@ -331,6 +331,9 @@ def totality(ctx, facts):
                     lim = 0 if s.kind == "range" else 1
                     if s.need.off <= lim:
                         ok, why = True, "position() of the same buffer is < len"
+                if not ok and s.base and re.match(r"^\('proj', \('call', 'core::slice::<impl \[T\]>::split_at(_checked)?'", s.base) and s.base.rstrip(")").endswith(", 1") and "Iterator::position" in s.base and s.need.sym is None and s.need.off <= 1:
+                    # the second half of buf.split_at(buf.iter().position(..)): position() < len, so at least one element is left
+                    ok, why = True, "the tail of split_at(position()) of the same buffer holds at least the found element"
                 if not ok:
                     why = f"{s.detail} needs len >= {s.need!r} but no dominating guard / invariant on this buffer implies it: a short or empty record panics here"
                 shape.append(s.kind)
